@@ -9,6 +9,10 @@
 (* NOOP, SEARCH, IDLE).                                                    *)
 (*                                                                         *)
 (*  C12_Unchanged     every dump equals the baseline dump of that mailbox  *)
+(*  C12_RecentConsumed  a message delivered into the examined mailbox      *)
+(*                    while no read-write selection of it exists keeps     *)
+(*                    its stored recent bit (the next read-write session   *)
+(*                    must see it)                                         *)
 (*  C12_RefusedNO     STORE, EXPUNGE, UID EXPUNGE in a read-only selection *)
 (*                    and APPEND/COPY/MOVE into a read-only mailbox answer *)
 (*                    NO                                                   *)
@@ -33,11 +37,22 @@ Init == /\ tid \in 1..N /\ l = 1 /\ base = [m \in Boxes |-> NoDump]
 Ev == Traces[tid][l]
 D(ev) == [uids |-> ev.uids, flags |-> ev.flags, rbits |-> ev.rbits]
 
+Rows(d) == {<<d.uids[i], d.flags[i], d.rbits[i]>> : i \in DOMAIN d.uids}
+UidsOf(d) == {d.uids[i] : i \in DOMAIN d.uids}
+
+\* messages that were there at the baseline are unchanged; messages delivered since (the
+\* session under test may APPEND/COPY into the mailbox it examines: an ordinary delivery)
+\* keep their stored recent bit when no read-write selection of the mailbox exists
 Dump(ev) ==
   IF ~has[ev.mbx] THEN /\ base' = [base EXCEPT ![ev.mbx] = D(ev)]
                        /\ has' = [has EXCEPT ![ev.mbx] = TRUE] /\ bad' = bad
-  ELSE IF base[ev.mbx] # D(ev) THEN bad' = "C12_Unchanged" /\ UNCHANGED <<base, has>>
-  ELSE UNCHANGED <<base, has, bad>>
+  ELSE LET b == base[ev.mbx]
+           now == D(ev)
+           newrows == {r \in Rows(now) : r[1] \notin UidsOf(b)}
+       IN IF ~(Rows(b) \subseteq Rows(now)) THEN bad' = "C12_Unchanged" /\ UNCHANGED <<base, has>>
+          ELSE IF ev.norw /\ \E r \in newrows : ~r[3]
+               THEN bad' = "C12_RecentConsumed" /\ UNCHANGED <<base, has>>
+          ELSE UNCHANGED <<base, has, bad>>
 
 Mutating(c) == c[1] \in {"store", "expunge", "uidexpunge"}
 Into(c) == IF c[1] = "append" THEN c[2] ELSE IF c[1] \in {"copy", "move"} THEN c[4] ELSE ""
